@@ -1462,7 +1462,9 @@ theorem filter_abort_noread_chain_e2e_unbounded {p : Preamble} {recs pre : List 
     exact hw.ev _ (mem_evsAfter _ _ _ (Or.inr ⟨UReq.spec mc y, List.mem_map_of_mem hy, rfl⟩))
   · rw [← hlast]; exact hw.ph
 
-/-- `filter_abort_stdin_e2e` without the size hypothesis. -/
+/-- `filter_abort_stdin_e2e` without `hsize` (`K·|input| + M ≤ 100000`), but NOT size-free: the bound moved to
+`|Stdin wire| ≤ 31000` (`hX31`; keeps it).  The size-free version is `filter_abort_stdin_e2e_anysize` in
+`Props/C11FilterAnysize.lean`. -/
 theorem filter_abort_stdin_e2e_unbounded {p : Preamble} {recs pre : List Rec} {a : Rec} {post : List Rec}
     {b mc : Nat} {content : Bytes} {s0 : ExitStatus} {pr : Bool} {more : List (List HOp × Bool)} {t : Transport} {fuel : Nat}
     (hwf : WellFormedPreamble p recs) (hrole : p.role = 3)
@@ -1526,7 +1528,9 @@ theorem filter_abort_stdin_e2e_unbounded {p : Preamble} {recs pre : List Rec} {a
       · exact Or.inl ⟨hem.symm.trans hf.em, rfl, hf.ph⟩
   · exact ⟨c', fin, hrun, ⟨hfu.ev.1, hfu.ev.2⟩, hfu.sc, Or.inr ⟨hfu.nokeep, hfin, hfu.ph, hfu.log.trans hLf'⟩⟩
 
-/-- `filter_abort_stdin_chain_e2e` without the size hypothesis. -/
+/-- `filter_abort_stdin_chain_e2e` without `hsize` (`K·|input| + M ≤ 100000`), but NOT size-free: the bound moved to
+`|Stdin wire| ≤ 31000` (`hX31`; keeps it).  The size-free version is `filter_abort_stdin_chain_e2e_anysize` in
+`Props/C11FilterAnysize.lean`. -/
 theorem filter_abort_stdin_chain_e2e_unbounded {p : Preamble} {recs pre : List Rec} {a : Rec} {post : List Rec}
     {b mc : Nat} {content : Bytes} {s0 : ExitStatus} {pr : Bool} (x : UReq) (xs : List UReq) {t : Transport} {fuel : Nat}
     (hwf : WellFormedPreamble p recs) (hrole : p.role = 3) (hk : p.flags.toNat % 2 = 1)
@@ -1605,7 +1609,9 @@ theorem filter_abort_stdin_chain_e2e_unbounded {p : Preamble} {recs pre : List R
   · rw [← hlast]; exact hw.ph
 
 
-/-- `filter_abort_gap_e2e` without the size hypothesis. -/
+/-- `filter_abort_gap_e2e` without `hsize` (`K·|input| + M ≤ 100000`), but NOT size-free: the bound moved to
+`|Stdin wire| ≤ 31000` (`hX31`; keeps it).  The size-free version is `filter_abort_gap_e2e_anysize` in
+`Props/C11FilterAnysize.lean`. -/
 theorem filter_abort_gap_e2e_unbounded {p : Preamble} {recs sbody mid : List Rec} {pad : Bytes} {res : UInt8} {a : Rec} {post : List Rec}
     {b mc : Nat} {content : Bytes} {s0 : ExitStatus} {pr : Bool} {more : List (List HOp × Bool)} {t : Transport} {fuel : Nat}
     (hwf : WellFormedPreamble p recs) (hrole : p.role = 3)
@@ -1670,7 +1676,9 @@ theorem filter_abort_gap_e2e_unbounded {p : Preamble} {recs sbody mid : List Rec
       · exact Or.inl ⟨hem.symm.trans hf.em, rfl, hf.ph⟩
   · exact ⟨c', fin, hrun, ⟨hfu.ev.1, hfu.ev.2⟩, hfu.sc, Or.inr ⟨hfu.nokeep, hfin, hfu.ph, hfu.log.trans hLf'⟩⟩
 
-/-- `filter_abort_gap_chain_e2e` without the size hypothesis. -/
+/-- `filter_abort_gap_chain_e2e` without `hsize` (`K·|input| + M ≤ 100000`), but NOT size-free: the bound moved to
+`|Stdin wire| ≤ 31000` (`hX31`; keeps it).  The size-free version is `filter_abort_gap_chain_e2e_anysize` in
+`Props/C11FilterAnysize.lean`. -/
 theorem filter_abort_gap_chain_e2e_unbounded {p : Preamble} {recs sbody mid : List Rec} {pad : Bytes} {res : UInt8} {a : Rec} {post : List Rec}
     {b mc : Nat} {content : Bytes} {s0 : ExitStatus} {pr : Bool} (x : UReq) (xs : List UReq) {t : Transport} {fuel : Nat}
     (hwf : WellFormedPreamble p recs) (hrole : p.role = 3) (hk : p.flags.toNat % 2 = 1)
@@ -1919,7 +1927,9 @@ theorem filter_abort_data_chain_e2e_unbounded {p : Preamble} {recs sbody dbody :
 
 
 
-/-- `filter_abort_table` without the size hypothesis. -/
+/-- `filter_abort_table` without `hsize` (`K·|input| + M ≤ 100000`), but NOT size-free: the bound moved to
+`|Stdin wire| ≤ 31000` (`hX31`; rows (a)/(b), placements (i)/(ii) keep it).  The size-free version is `filter_abort_table_anysize` in
+`Props/C11FilterAnysize.lean`. -/
 theorem filter_abort_table_unbounded :
     -- row (c): the handler never reads; (i), (ii), (iii) with no Data content before the abort record
     (∀ {p : Preamble} {recs pre : List Rec} {a : Rec} {post : List Rec} {b mc : Nat} {st : ExitStatus}
@@ -2065,7 +2075,9 @@ theorem filter_abort_data_noread_e2e_unbounded {p : Preamble} {recs sbody dbody 
   · exact ⟨c', fin, hrun, ⟨hfu.ev.1, hfu.ev.2⟩, hfu.sc, full, d1, s2, hsp, hfs,
       Or.inr ⟨hfu.nokeep, hfin, hfu.ph, by rw [hfu.log, lf4_eq]⟩⟩
 
-/-- `filter_abort_table_full` without the size hypothesis. -/
+/-- `filter_abort_table_full` without `hsize` (`K·|input| + M ≤ 100000`), but NOT size-free: the bound moved to
+`|Stdin wire| ≤ 31000` (`hX31`; rows (a)/(b), placements (i)/(ii) keep it).  The size-free version is `filter_abort_table_full_anysize` in
+`Props/C11FilterAnysize.lean`. -/
 theorem filter_abort_table_full_unbounded :
     (∀ {p : Preamble} {recs sbody dbody : List Rec} {pad : Bytes} {res : UInt8} {a : Rec} {post : List Rec}
       {b mc : Nat} {content c2 : Bytes} {st : ExitStatus} {more : List (List HOp × Bool)} {t : Transport}
